@@ -89,7 +89,9 @@ var roHevcPps = []byte{0x44, 0x01, 0xc0, 0x73, 0xc1, 0x89}
 var roHvccHead = []byte{0x01, 0x01, 0x60, 0x00, 0x00, 0x00, 0x90, 0x00, 0x00, 0x00, 0x00, 0x00, 0x3f, 0xf0, 0x00, 0xfc, 0xfd, 0xf8, 0xf8, 0x00, 0x00, 0x0f}
 
 // AudioSpecificConfig pool: (object type, sampling index, channels)
-var roAscPool = map[int][]byte{1: {0x12, 0x10}, 2: {0x11, 0x90}, 3: {0x15, 0x88}}
+// 4-7 (directed scenarios): 5.1 at 48 kHz, AAC Main 7.1 at 44.1 kHz, LTP stereo at 96 kHz, 4.0 at 7350 Hz
+var roAscPool = map[int][]byte{1: {0x12, 0x10}, 2: {0x11, 0x90}, 3: {0x15, 0x88},
+	4: {0x11, 0xb0}, 5: {0x0a, 0x38}, 6: {0x20, 0x10}, 7: {0x16, 0x20}}
 
 func roAscFields(v int) []int {
 	a := roAscPool[v]
